@@ -22,12 +22,14 @@ ENCODED = ["twisted.conch.telnet:Telnet.will", "twisted.conch.telnet:Telnet.wont
            "twisted.conch.telnet:Telnet.dont_no_false", "twisted.conch.telnet:Telnet.dont_no_true",
            "twisted.conch.telnet:Telnet.dont_yes_false", "twisted.conch.telnet:Telnet.dont_yes_true",
            "twisted.conch.telnet:Telnet.getOptionState"]
-BOUNDS = {"quick": {"nopt": 1, "req": 3, "hist": 7}, "thorough": {"nopt": 2, "req": 4, "hist": 9}}
+BOUNDS = {"quick": {"nopt": 1, "req": 3, "hist": 7, "nopt2": 2, "req2": 2, "hist2": 4},
+          "thorough": {"nopt": 1, "req": 4, "hist": 10, "nopt2": 2, "req2": 3, "hist2": 7}}
 B = {}
 BOUNDS_TEXT = ("two connected Telnet instances A, B; histories of length <= hist over {A/B . will/wont/do/dont(o), "
                "deliver next A->B message, deliver next B->A message}, o in the first nopt options, at most req "
                "requests that the API accepts, every one of the 16 (policy A, policy B) pairs; after the history "
-               "all queues are drained")
+               "all queues are drained; thorough tier adds harness history2 with nopt2 = 2 options, req2 requests, "
+               "length <= hist2, first accepted request by A on option 1 (symmetry)")
 OUTSIDE = ["more than req accepted requests / more than nopt options / longer histories",
            "peers that are not twisted Telnet instances (arbitrary WILL/WONT/DO/DONT byte streams)",
            "policies whose enableLocal/enableRemote answer changes over time or that refuse an option the same "
@@ -36,7 +38,11 @@ OUTSIDE = ["more than req accepted requests / more than nopt options / longer hi
            "Deferred callback or policy hook",
            "messages split at arbitrary byte positions (each delivery is one whole 3 byte IAC command; byte "
            "level splitting of the parser is C38's subject)"]
-ASSUMPTIONS = ["transport = in-memory FIFO of the bytes written, reliable and ordered per direction (TCP)",
+ASSUMPTIONS = ["history2 (two options, thorough tier) fixes the first step to A.will(option 1) or A.do(option 1): "
+               "every history that gets past its first step starts with an accepted will/do, and exchanging the "
+               "two sides (all 16 policy pairs are explored) or the two options (policies and Telnet treat option "
+               "bytes uniformly) maps it to one of these",
+               "transport = in-memory FIFO of the bytes written, reliable and ordered per direction (TCP)",
                "policy of a side = two fixed booleans (acceptLocal, acceptRemote) applied to every option, for "
                "solicited and unsolicited peer requests alike; a side only issues will(o) when acceptLocal and "
                "do(o) when acceptRemote ('policies accept the options they themselves request'); wont/dont are "
@@ -258,15 +264,9 @@ def _conc(x, n):
     raise AssertionError("out of range")
 
 
-def history(pa: int, pb: int, ops: List[int]) -> bool:
-    """
-    pre: 0 <= pa <= 3 and 0 <= pb <= 3
-    pre: len(ops) == B['hist']
-    post: _
-    """
+def _run(pa, pb, ops, nopt, maxreq):
     # ops has fixed length; any value outside the menu ends the history early (so every shorter
     # history is covered and the solver decides the elements one by one, in order)
-    nopt = B["nopt"]
     w = _World(_conc(pa, 4), _conc(pb, 4), nopt)
     for op in ops:
         r = "end"
@@ -274,7 +274,7 @@ def history(pa: int, pb: int, ops: List[int]) -> bool:
             if op == code:
                 if code >= nopt * 8:
                     r = w.deliver(code - nopt * 8)
-                elif w.nreq >= B["req"]:
+                elif w.nreq >= maxreq:
                     r = "stop"
                 else:
                     r = w.request((code >> 2) & 1, KINDS[code & 3], w.opts[code >> 3])
@@ -294,6 +294,24 @@ def history(pa: int, pb: int, ops: List[int]) -> bool:
     return w.final_ok()
 
 
+def history(pa: int, pb: int, ops: List[int]) -> bool:
+    """
+    pre: 0 <= pa <= 3 and 0 <= pb <= 3
+    pre: len(ops) == B['hist']
+    post: _
+    """
+    return _run(pa, pb, ops, B["nopt"], B["req"])
+
+
+def history2(pa: int, pb: int, ops: List[int]) -> bool:
+    """
+    pre: 0 <= pa <= 3 and 0 <= pb <= 3
+    pre: len(ops) == B['hist2'] and (ops[0] == 0 or ops[0] == 2)
+    post: _
+    """
+    return _run(pa, pb, ops, B["nopt2"], B["req2"])
+
+
 def _shards(tier):
     # case split over the policies and, for the big policy pairs, over the first step
     nopt = BOUNDS[tier]["nopt"]
@@ -303,11 +321,24 @@ def _shards(tier):
     for a in range(4):
         for b in range(4):
             base = ("pa == %d" % a, "pb == %d" % b)
-            if tier == "thorough" or (a == 3 and b != 0) or (b == 3 and a != 0):
+            if (tier == "thorough" and a and b) or (a == 3 and b != 0) or (b == 3 and a != 0):
                 out += [base + ("ops[0] == %d" % c,) for c in first] + [base + (rest,)]
             else:
                 out.append(base)
     return out
 
 
-HARNESSES = [H(history, shards=_shards, timeout={"quick": 90, "thorough": 1500})]
+def _shards2(tier):
+    out = []
+    for a in range(4):
+        for b in range(4):
+            base = ("pa == %d" % a, "pb == %d" % b)
+            if a and b:
+                out += [base + ("ops[0] == 0",), base + ("ops[0] == 2",)]
+            else:
+                out.append(base)
+    return out
+
+
+HARNESSES = [H(history, shards=_shards, timeout={"quick": 90, "thorough": 1500}),
+             H(history2, shards=_shards2, timeout={"quick": 90, "thorough": 1500}, tiers=("thorough",))]
